@@ -208,6 +208,7 @@ type chainEntry struct {
 }
 
 type event struct {
+	NoWrites  bool // committed with an empty write list
 	Seq       int
 	H         int64
 	Root      string
@@ -566,6 +567,32 @@ func (r *runner) classify(m missNode) (shape, why string) {
 	kind := nodeKind(m.Key, m.IsRoot)
 	desc := fmt.Sprintf("%s %s of state@%d", kind, printable(m.Key), m.StateH)
 	if _, was := r.kvBefore[m.Key]; !was {
+		// the record did not exist when the last prune started (and the walk found every retained state intact after
+		// the operations before it): the state was persisted with a dangling pointer. With memTree on and a
+		// recurring root hash (of the state or of its parent) this is the F-C05-6 mechanism, the superseded version
+		// having been removed by an EARLIER prune run.
+		if r.h.Cfg.MemTree {
+			saves := func(root string) (n int) {
+				for _, ev := range r.events {
+					if ev.Saved && ev.Root == root {
+						n++
+					}
+				}
+				return
+			}
+			for i, ce := range r.chain {
+				if ce.H != m.StateH {
+					continue
+				}
+				ps := 0
+				if i > 0 {
+					ps = saves(string(r.chain[i-1].Root))
+				}
+				if ss := saves(string(ce.Root)); ss >= 2 || ps >= 2 {
+					return shapeMemTreeBuild, fmt.Sprintf("%s did not exist when the last prune started: with memTree on the state was built on an older incarnation of a recurring root record (root of the state saved %d times, root of its parent %d times) and persists a pointer to a version an earlier prune run had removed", desc, ss, ps)
+				}
+			}
+		}
 		return "record-missing-before-prune:" + kind, desc + " was not in the DB before the last prune either"
 	}
 	bound := r.pruneCur - int64(r.h.Cfg.PH)
@@ -661,8 +688,17 @@ func (r *runner) classify(m missNode) (shape, why string) {
 				got[shapeMemTreeRecommit] = fmt.Sprintf("%s deleted through index entry (%q@%d); the newest eligible entry (%q@%d) is a dead fork's; height %d WAS saved again with memTree on, but DelLeafCountKV missed it: the entry's leaf is no longer reachable from any root recorded at height %d (the re-commit's pending nodes, published in memTree / saved under the same height-prefixed content key, replaced the dead fork's node)",
 					desc, c.Key, c.H, e0.Key, e0.H, e0.H, e0.H)
 			default:
-				got["stale-index-entry-survived:"+kind] = fmt.Sprintf("%s deleted through (%q@%d); newest eligible entry (%q@%d) is not a write of the current chain; height re-saved=%v savedOnDeadBranch=%v",
-					desc, c.Key, c.H, e0.Key, e0.H, recommitted, len(deadRoots) > 0)
+				shape := "stale-index-entry-survived:" + kind
+				how := ""
+				if recommitted {
+					// the height WAS committed again through a call that reaches Tree.Save (non-empty MemSet+Commit, or
+					// Store.Set with or without writes): F-C05-2 (height never saved again) does not apply
+					shape = "stale-index-entry-survived-recommit-through-save:" + kind
+					last := r.events[r.lastSaveEv[e0.H]]
+					how = fmt.Sprintf("; the current chain re-committed height %d through Tree.Save (event %d, Store.Set=%v, without writes=%v)", e0.H, last.Seq, r.h.Cfg.UseSet, last.NoWrites)
+				}
+				got[shape] = fmt.Sprintf("%s deleted through (%q@%d); newest eligible entry (%q@%d) is not a write of the current chain; height re-saved=%v savedOnDeadBranch=%v%s",
+					desc, c.Key, c.H, e0.Key, e0.H, recommitted, len(deadRoots) > 0, how)
 			}
 			continue
 		}
@@ -931,6 +967,9 @@ func runHistory(h *History, dir string) (res HistResult) {
 			r.cnt["commits"]++
 			if len(op.KV) == 0 {
 				r.cnt["commits_without_state_change"]++
+				if saved && r.maxEver() >= H {
+					r.cnt["recommits_without_writes_through_save"]++
+				}
 			}
 			if d > 1 {
 				r.cnt["height_jumps"]++
@@ -938,7 +977,7 @@ func runHistory(h *History, dir string) (res HistResult) {
 			if _, used := r.lastSaveEv[H]; used || r.maxEver() >= H {
 				r.cnt["recommits_at_used_height"]++
 			}
-			ev := event{Seq: len(r.events), H: H, Root: string(root), Saved: saved}
+			ev := event{Seq: len(r.events), H: H, Root: string(root), Saved: saved, NoWrites: len(op.KV) == 0}
 			r.events = append(r.events, ev)
 			if saved {
 				r.lastSaveEv[H] = ev.Seq
@@ -1266,7 +1305,38 @@ func fixedWitnesses() []History {
 		{T: "commit", D: 500004, KV: kv("x", "u3")},
 		{T: "prune"},
 	}}
-	return []History{w1, w2, w3, w4, w5, w6, w7}
+	// guards (clean stratum, must hold): an abandoned height is re-committed WITHOUT writes through Store.Set, which
+	// runs Tree.Save and with it the clean-up of the dead fork's index entries (F-C05-2 needs a height that is never
+	// saved again; here it is)
+	g1 := History{Gen: "guard-recommit-without-writes-through-set", Start: 1, Cfg: Cfg{PH: 2, UseSet: true}, Ops: []Op{
+		{T: "commit", D: 1, KV: kv("a", "1", "b", "1", "c", "1", "k", "1")},
+		{T: "commit", D: 1, KV: kv("a", "2")},
+		{T: "commit", D: 1, KV: kv("k", "A")},
+		{T: "rollback", D: 1},
+		{T: "commit", D: 1},
+		{T: "commit", D: 1, KV: kv("b", "u4")},
+		{T: "commit", D: 1, KV: kv("b", "u5")},
+		{T: "commit", D: 1, KV: kv("b", "u6")},
+		{T: "reopen"},
+	}}
+	g2 := History{Gen: "guard-recommit-without-writes-through-set-deep", Start: 0, Cfg: Cfg{PH: 3, UseSet: true}, Ops: []Op{
+		{T: "commit", D: 1, KV: kv("a", "1", "b", "1", "c", "1", "d", "1", "e", "1")},
+		{T: "commit", D: 1, KV: kv("a", "g1")},
+		{T: "commit", D: 1, KV: kv("c", "A2", "e", "A2")},
+		{T: "commit", D: 1, KV: kv("d", "A3")},
+		{T: "rollback", D: 2},
+		{T: "commit", D: 1},
+		{T: "commit", D: 1},
+		{T: "commit", D: 1, KV: kv("b", "g4")},
+		{T: "commit", D: 1, KV: kv("b", "g5")},
+		{T: "commit", D: 1, KV: kv("a", "g6")},
+		{T: "prune"},
+		{T: "commit", D: 1, KV: kv("b", "g7")},
+		{T: "commit", D: 1, KV: kv("b", "g8")},
+		{T: "commit", D: 1, KV: kv("b", "g9")},
+		{T: "reopen"},
+	}}
+	return []History{w1, w2, w3, w4, w5, w6, w7, g1, g2}
 }
 
 var keyAlphabets = [][]string{
@@ -1337,7 +1407,12 @@ func genHistory(rng *lib.Rng, idx int, mode string, large bool) History {
 				}
 			}
 			canSkip := mode == "trigger" || (tipH >= maxEver && outstanding == 0)
+			recommitting := tipH < maxEver || outstanding > 0
 			if len(chain) > 0 && canSkip && rng.Chance(18) {
+				nkv = 0
+			} else if len(chain) > 0 && h.Cfg.UseSet && recommitting && !large && rng.Chance(40) {
+				// Store.Set with an empty write list still runs Tree.Save (leaf-index clean-up of the re-committed
+				// height, root record, max height): a no-change re-commit of an abandoned height
 				nkv = 0
 			}
 			if len(chain) > 0 && canSkip && profile == "giant" && rng.Chance(22) {
@@ -1597,6 +1672,7 @@ func run(c *lib.Ctx) {
 	c.RequireEvents("reads_compared", 2000)
 	c.RequireEvents("prune_runs_that_deleted", 20)
 	c.RequireEvents("recommits_at_used_height", 10)
+	c.RequireEvents("recommits_without_writes_through_save", 5)
 }
 
 func main() {
